@@ -94,6 +94,27 @@ def meta_family(tag):
     return scs
 
 
+def upclose_family(tag):
+    """an upstream finishes while chunks of it (alias form) are still queued at the consumer: the consumer reads the UpstreamNormalClose
+    metadata FIRST and the chunks afterwards - every chunk is still returned, resolved to the upstream it came from; chunks of the other
+    upstream are unaffected; a later upstream of the same name is a new one."""
+    scs = []
+    ch = lambda k, up, f: {"a": "sendChunk", "obj": "D1", "up": up, "upF": f, "upAl": -1 if f == "alias" else 0, "seq": k,
+                           "groups": [{"f": "id", "id": "A", "al": 0, "pts": [[k, 4]]}]}
+    rd = {"a": "read", "g": "R1", "obj": "D1", "ctxMs": 1500, "wait": True}
+    for k, nq in enumerate((1, 3, 6)):
+        steps = [{"a": "connect", "must": True}, {"a": "openDown", "obj": "D1", "qos": "reliable", "srcs": ["n-X", "n-Y"], "ids": ["A"], "ackFlushMs": 20, "must": True},
+                 ch(1, "X", "info"), dict(rd), ch(2, "Y", "info"), dict(rd), {"a": "sleep", "ms": 60}]       # both upstreams announced
+        steps += [ch(3 + j, "X" if j % 2 == 0 else "Y", "alias") for j in range(nq)]
+        steps += [{"a": "sendDownMeta", "obj": "D1", "src": "n-X", "mode": "upClose", "up": "X", "tag": 3 + nq},
+                  {"a": "readMeta", "g": "R2", "obj": "D1", "ctxMs": 1500, "wait": True}, {"a": "sleep", "ms": 30}]
+        steps += [dict(rd) for j in range(nq)]
+        steps += [ch(20, "Y", "alias"), dict(rd), {"a": "closeDown", "g": "C", "obj": "D1", "ctxMs": 3000, "wait": True}, {"a": "quiesce"},
+                  {"a": "closeConn", "g": "main2", "wait": True, "ctxMs": 2000}, {"a": "quiesce", "ms": 50}]
+        scs.append({"id": "%s/upclose/%d" % (tag, k), "kind": "iscp", "conn": {}, "steps": steps})
+    return scs
+
+
 def dupfilter_family(tag):
     """several filters of one downstream name the same source node: that node's metadata still arrives once each, in the broker's order."""
     scs = []
@@ -307,7 +328,7 @@ def run(pid="C04", mon="MonC04"):
         js.append(dict(x, id=x["id"] + "-json", conn=dict(x["conn"], encoding="json")))
     scs += js
     if pid == "C03":
-        scs += meta_family(pid) + dupfilter_family(pid) + downmeta(ctx, pid, quick)
+        scs += meta_family(pid) + dupfilter_family(pid) + upclose_family(pid) + downmeta(ctx, pid, quick)
         # unreliable downstream over a transport with a separate unreliable path (chunks arrive on the datagram-like pipe)
         scs += forms_family(pid, 3, "up", qos="unreliable", conn={"unreliable": True}, name="forms-up3-unreliable-path")
         scs += forms_family(pid, 3, "up", qos="partial", name="forms-up3-partial")
